@@ -44,9 +44,10 @@ CONSTANTS
                   \* the order of adjacent Construct (resp. Drop) actions, and no Reflect
                   \* (which never changes the model state): used for the deep invariant runs
 
-VARIABLES heap, addr, handles, held, slots, table, gensym, stale, nalloc, arrs, hist
+VARIABLES heap, addr, handles, held, slots, table, gensym, stale, nalloc, arrs, hist,
+          obsq    \* the expected observation after each action of hist (only when EmitDepth > 0)
 
-vars == <<heap, addr, handles, held, slots, table, gensym, stale, nalloc, arrs, hist>>
+vars == <<heap, addr, handles, held, slots, table, gensym, stale, nalloc, arrs, hist, obsq>>
 
 -----------------------------------------------------------------------------
 (* atoms of an argument tuple: <<tag, n>>                                  *)
@@ -405,7 +406,7 @@ Init ==
   /\ heap = InitState.heap /\ addr = InitState.addr /\ handles = InitState.handles
   /\ held = InitState.held /\ slots = InitState.slots /\ table = InitState.table
   /\ gensym = InitState.gensym /\ stale = InitState.stale /\ nalloc = InitState.nalloc
-  /\ arrs = InitState.arrs /\ hist = <<>>
+  /\ arrs = InitState.arrs /\ hist = <<>> /\ obsq = <<>>
 
 Next ==
   /\ Len(hist) < MaxDepth
@@ -415,6 +416,7 @@ Next ==
        /\ slots' = T.slots /\ table' = T.table /\ gensym' = T.gensym /\ stale' = T.stale
        /\ nalloc' = T.nalloc /\ arrs' = T.arrs
        /\ hist' = Append(hist, act)
+       /\ obsq' = IF EmitDepth > 0 THEN Append(obsq, Obs(T)) ELSE obsq
 
 Spec == Init /\ [][Next]_vars
 
@@ -456,15 +458,5 @@ NoStale == ~stale
 AddrInjective ==
   \A x, y \in {z \in LiveSet(State) : heap[z].k = "arr"} : addr[x] = addr[y] => x = y
 
-(* the expected observation after every prefix of the history is recomputed  *)
-(* from the initial state when a history is printed                         *)
-RECURSIVE StateAfter(_, _)
-StateAfter(acts, k) == IF k = 0 THEN InitState ELSE Apply(StateAfter(acts, k - 1), acts[k])
-
-RECURSIVE ObsSeq(_, _, _, _)
-ObsSeq(acts, k, S, acc) ==
-  IF k > Len(acts) THEN acc
-  ELSE LET T == Apply(S, acts[k]) IN ObsSeq(acts, k + 1, T, Append(acc, Obs(T)))
-
-Emit == Len(hist) # EmitDepth \/ PrintT(ToJson([acts |-> hist, obs |-> ObsSeq(hist, 1, InitState, <<>>)]))
+Emit == Len(hist) # EmitDepth \/ PrintT(ToJson([acts |-> hist, obs |-> obsq]))
 =============================================================================
